@@ -90,6 +90,25 @@ def seqStep (gl gp cid : Nat) : List Nat → List String → Option (List String
       pure (line :: more)
     | _ => none
 
+/-- `cfg` lines: a history of setters, reconnects and calls (RegisterNewNode) on one adaptor -/
+def cfgStep : Adaptor → List String → Option (List String)
+  | _, [] => some []
+  | a, tok :: rest =>
+    match tok.splitOn ":" with
+    | ["gp", v] => do cfgStep (a.setGasPrice (← v.toNat?)) rest
+    | ["gl", v] => do cfgStep (a.setGasLimit (← v.toNat?)) rest
+    | ["re"] => cfgStep a.reconnect rest
+    | ["tx", outs] => do
+      let fs ← (outs.splitOn ",").mapM parseFs
+      let (r, dead') := call true a.dead (fs.map (·.1))
+      let raw := r.contacted.filter (fun i => match fs[i]? with | some (_, b) => b | none => false)
+      let txs := raw.map (fun i =>
+        s!"{i}:nonce={7 + i} gas={a.session.gasLimit} price={if a.session.gasPrice = 0 then 2000000000 + i else a.session.gasPrice} chain={a.session.chainId} from=key")
+      let line := s!"err={callErrName r.err} contacted={natsCsv r.contacted} raw={natsCsv raw} tx={if txs.isEmpty then "-" else String.intercalate ";" txs}"
+      let more ← cfgStep { a with dead := dead' } rest
+      pure (line :: more)
+    | _ => none
+
 def step (line : String) : String :=
   match words line with
   | ["hr", os] =>
@@ -100,6 +119,13 @@ def step (line : String) : String :=
     match gl.toNat?, gp.toNat?, cid.toNat? with
     | some gl, some gp, some cid =>
       match seqStep gl gp cid [] calls with
+      | some ls => String.intercalate " | " ls
+      | none => "bad-op"
+    | _, _, _ => "bad-op"
+  | "cfg" :: gl :: gp :: cid :: ops =>
+    match gl.toNat?, gp.toNat?, cid.toNat? with
+    | some gl, some gp, some cid =>
+      match cfgStep (Adaptor.start ⟨gl, gp, cid⟩) ops with
       | some ls => String.intercalate " | " ls
       | none => "bad-op"
     | _, _, _ => "bad-op"
